@@ -8,7 +8,7 @@ TB_COMMON = [
 
 PROPS = {
     "C17": {
-        "thm": ["Umya.Thm.C17", "Umya.Thm.C17Gen", "Umya.Thm.C17Regex", "Umya.Thm.C17Parse", "Umya.Thm.C17Obj"],
+        "thm": ["Umya.Thm.C17", "Umya.Thm.C17Gen", "Umya.Thm.C17Regex", "Umya.Thm.C17Parse", "Umya.Thm.C17Obj", "Umya.Thm.C17ParseMore"],
         "harness": "c17",
         "level": "proof",
         "level_text": "Proof: the codecs of helper/coordinate.rs, helper/range.rs, helper/address.rs and structs/{range,address} are modelled as "
@@ -20,7 +20,14 @@ PROPS = {
                       "to the hand model CoordObj for every prior state and text (C17_set_coordinate_matches_source, C17_get_coordinate_matches_source: "
                       "panic exactly when one of the four results of index_from_coordinate is None resp. when col = 0); C17_set_coordinate_overwrites: "
                       "the outcome does not depend on what the object held, all four fields are those parsed from the text and get_coordinate prints "
-                      "them; C17_set_get_coordinate: on the grammar canonCellB, get_coordinate after set_coordinate(t) = t.",
+                      "them; C17_set_get_coordinate: on the grammar canonCellB, get_coordinate after set_coordinate(t) = t. "
+                      "Address level widened (Thm/C17ParseMore.lean, grammars in Model/CoordCanonMore.lean): Address::set_address applies no is_address filter "
+                      "(split_address + Range::set_range), so for EVERY text of canonAreaB' (canonical qualifier ! cell | cell:cell | col:col | row:row, e.g. "
+                      "Sheet1!$A:$B, 'My Sheet'!$1:$3) set_address(undoubled t) reads a legal sheet name and an in-bounds range of that shape and get_address_ptn2 "
+                      "prints canonArea t = re-quoted qualifier + the range text verbatim, a fixed point parsing to the same area (C17_address_canon_cols_rows; "
+                      "C17_canonArea_sub: canonAreaB is inside canonAreaB'); for EVERY bare range text of canonRangeB ($A$1, A1:B2, $A:$B, 1:3) set_address reads an "
+                      "address with the EMPTY sheet name and get_address_ptn2 prints the text verbatim, no `!` (C17_address_unqualified); both in one statement on "
+                      "canonAddrB with addrReprint t = ok (canonArea t) (C17_address_canon_total, C17_address_reprint_total).",
         "level_note": "Trusted: Lean kernel + 3 standard axioms; the hand model's faithfulness as exercised by the correspondence stream; "
                       "fancy_regex behaviour on one regex (modelled); ASCII-only upper-casing.",
         "expect_theorems": ["C17_codec_matches_source", "C17_regex_matches_source", "C17_alpha_index", "C17_alpha_index3", "C17_index_alpha", "C17_bijective_numeral",
@@ -29,6 +36,7 @@ PROPS = {
                             "C17_range_parse_print", "C17_range_reprint", "C17_range_bijection",
                             "C17_address_parse_print", "C17_address_rejoin", "C17_quote_rule", "C17_address_text", "C17_address_canon",
                             "C17_address_apostrophes",
+                            "C17_address_canon_cols_rows", "C17_canonArea_sub", "C17_address_unqualified", "C17_address_canon_total", "C17_address_reprint_total",
                             "C17_set_coordinate_matches_source", "C17_get_coordinate_matches_source", "C17_set_coordinate_overwrites", "C17_set_get_coordinate"],
         "rule": "exhaustive: every column 0..18279 and every 1-3 letter name; rows 1..1048576 (stride 257 quick / 1 thorough) x "
                 "{A,Z,AA,ZZ,AAA,XFD} x 4 lock combinations; random strings over $A-Za-z0-9:!'\" against the regex model; "
@@ -52,12 +60,20 @@ PROPS = {
                         "anchored, upper-case, 1-3 letters, rows 0|[1-9][0-9]* below 2^32; outside them the parser is NOT an inverse of the printer "
                         "(unanchored pattern: A1B re-prints as A1; A01 as A1; lower case parses to nothing) - witnesses are examples in Thm/C17Parse.lean",
                         "canonAreaB takes an unquoted qualifier to be any legal sheet name without ' ( ) \" , (a superset of what Excel writes bare); "
-                        "only cell and cell:cell behind a qualifier (what is_address accepts)"],
+                        "only cell and cell:cell behind a qualifier (what is_address accepts); canonAreaB' / canonAddrB (Model/CoordCanonMore.lean) add col:col and "
+                        "row:row behind a qualifier and all four shapes without one, at the level of Address::set_address on a DEFAULT Address only"],
         "partial_clauses": ["join_address(split_address(t)) is the identity only for unquoted qualifiers: 'n'!a comes back as n!a (join_address never quotes; "
                             "stated exactly in C17_address_parse_print); the quoting printer get_address_ptn2 returns canonArea t, not t: the qualifier is "
                             "re-quoted by the library's own rule (C17_quote_rule: bare only for [0-9a-zA-Z]+ starting with a lower-case letter or a digit run >= 2^32), "
                             "so Excel's Sheet1!$A$1 comes back as 'Sheet1'!$A$1 - same area (C17_address_canon), different text",
-                            "an unqualified area ($A$1 without sheet) and non-ASCII case mapping are outside the address-level grammar",
+                            "non-ASCII case mapping is outside the address-level grammar; unqualified areas and qualified col:col / row:row areas are covered at the level "
+                            "of Address::set_address / get_address_ptn2 on a default Address (C17_address_canon_total) but NOT at the level of DefinedName::set_address, "
+                            "whose is_address filter keeps a text with a rejected piece as a plain string, printed verbatim (C06_defined_name_text_kept, hypothesis "
+                            "(splitStr v).all isAddress = false; that EVERY qualified col:col / row:row text is rejected by is_address is not a theorem - examples only; "
+                            "tied by the pp name lines); set_address on a NON-default Address with an unqualified text keeps the old sheet name (`if sheet_name != \"\"`) - not "
+                            "modelled by Address.parse; the grammar predicates canonAreaB' / canonAddrB are not evaluated by the harness or the driver (no coverage counter "
+                            "of their own: the pp area lines carry the canonAreaB bit only, their reply text ties Address.parse / Address.text on A:C, 1:5, $A:$B and $A$1 "
+                            "behind and without qualifiers)",
                             "Range::set_range / get_range (structs/range.rs) are NOT compiled from the source (probed: set_range stops at `.split(':')` on str - then a "
                             "Vec<&str> that is indexed, ColumnReference::default() and `self.start_col = Some(..)`; get_range calls the sibling &self methods "
                             "get_coordinate_start / _end, which call ColumnReference::get_coordinate - not a plain getter); "
